@@ -191,7 +191,7 @@ PlusAll(args, i, acc) ==   \* [ok, v] | [ok |-> FALSE, kind]
   IF i > Len(args) THEN [ok |-> TRUE, v |-> acc]
   ELSE IF args[i].t # "int" THEN [ok |-> FALSE, kind |-> "ExpectedInteger"]
   ELSE LET r == IntAdd(acc, args[i]) IN
-       IF ~r.ok THEN [ok |-> FALSE, kind |-> "IntegerOverflow"] ELSE PlusAll(args, i + 1, r.v)
+       IF ~r.ok THEN [ok |-> FALSE, kind |-> "FunctionFailed"] ELSE PlusAll(args, i + 1, r.v)
 
 ConcatAll(args, i, acc) ==
   IF i > Len(args) THEN [ok |-> TRUE, l |-> acc]
